@@ -176,6 +176,8 @@ def run(run: common.Run):
                         matched=[list(sbs), list(rbs)], blocks_halvings=hv), 4)
     run.compare_lines(lay_cases, lay_lines, lay_impls)
     r2_band_leg(run, tmp)
+    if run.only is None:
+        stats_accepts_nonfinite(run, tmp)
 
 
 def mask_lines(run, case, src, ref, sv, rv, multi, proc_ref, nb):
@@ -207,6 +209,62 @@ def mask_lines(run, case, src, ref, sv, rv, multi, proc_ref, nb):
         d = np.argwhere((got_full.astype(bool) != exp) & decided)
         run.fail(case, f'parameter mask differs from "both images valid on the processing grid" at {len(d)} pixels, e.g. '
                  f'{d[0].tolist()}', signature=dict(kind='param-mask'))
+
+
+def stats_accepts_nonfinite(run, tmp):
+    """
+    A legitimate parameter image can hold non-finite statistics: with a reference that is constant over whole kernel windows (a
+    saturated or water patch in integer data) R2 = 1 - RSS/0 is -inf at valid pixels (the nodata value is NaN), so an R2 band's mean
+    is -inf.  Such an image is accepted by stats too - through the API and through `homonim stats`, with and without --output - and
+    the JSON report holds the API's figures.
+    """
+    import json
+    import math
+    from click.testing import CliRunner
+    from homonim import cli, ParamStats
+    g = rasters.Grid(8 * 3100, 8 * 4100, 8, 8, 20, 18)
+    rng = run.rng('nonfinite')
+    s = np.array([[[rng.randint(20, 120) for _ in range(g.w)] for _ in range(g.h)]], float)
+    r = np.array([[[rng.randint(30, 90) for _ in range(g.w)] for _ in range(g.h)]], float)
+    r[0, 4:12, 5:14] = 255.0
+    pair = fusion.write_pair(tmp, 'c14nf', g, g, s, r, None, None)
+    for k, model in enumerate(('gain', 'gain-blk-offset')):
+        case = dict(i=710_000 + k, op='stats on a parameter image with non-finite statistics', model=model)
+        try:
+            res = fusion.run_fuse(pair.src_path, pair.ref_path, tmp / f'c14nf{k}.tif', model=model, kernel_shape=(3, 3), param=True, threads=1)
+            with warnings.catch_warnings():
+                warnings.simplefilter('ignore')
+                with ParamStats(res.param_path) as ps:
+                    api = ps.stats(threads=1)
+        except Exception as ex:
+            run.fail(case, f'{type(ex).__name__}: {ex}', signature=dict(kind='raises', op='nonfinite'))
+            continue
+        run.evaluations += 1
+        run.hist['stats on non-finite parameter images'] += 1
+        nonfinite = any(isinstance(v, float) and not math.isfinite(v) for row in api for v in row.values())
+        if nonfinite:
+            run.nontrivial.add(('nonfinite', k))
+        out = tmp / f'c14nf{k}.json'
+        for args in (['stats', str(res.param_path)], ['stats', str(res.param_path), '--output', str(out)]):
+            cres = CliRunner().invoke(cli.cli, args)
+            run.evaluations += 1
+            if cres.exit_code != 0:
+                run.fail(dict(case, args=args[2:]), f'`homonim {" ".join(args[:1] + args[2:])}` exited {cres.exit_code} on a parameter image written by '
+                         f'fuse (its statistics hold non-finite values: {nonfinite})', signature=dict(kind='stats-rejects', op='nonfinite'))
+                break
+        else:
+            try:
+                js = json.loads(out.read_text())[str(res.param_path)]
+            except Exception as ex:
+                run.fail(case, f'the JSON report cannot be read back: {type(ex).__name__}: {ex}', signature=dict(kind='stats-json', op='nonfinite'))
+                continue
+            def canon(rows):
+                return [{kk: (repr(float(v)) if isinstance(v, (int, float)) and not isinstance(v, bool) else v) for kk, v in row.items()} for row in rows]
+            a, b = canon(js), canon(json.loads(json.dumps(api, default=float)))
+            if [r_['band'] for r_ in a] != [r_['band'] for r_ in b] or any(
+                    not (x == y or abs(float(x) - float(y)) <= 1e-9 * max(1.0, abs(float(y)))) for ra, rb in zip(a, b) for (k1, x), (k2, y) in
+                    zip(sorted(ra.items()), sorted(rb.items())) if k1 != 'band' and x not in ('nan',) and y not in ('nan',)):
+                run.fail(case, f'JSON report {a[:1]} differs from the API result {b[:1]}', signature=dict(kind='stats-json', op='nonfinite'))
 
 
 def r2_band_leg(run, tmp):
